@@ -151,3 +151,71 @@ func verifC05(n Name) (base []byte, parts [][]byte, b2 []byte) {
 //@     invariant forall j int :: 0 <= j < idx() ==> isdigit(x[j])
 //@     invariant forall k int :: 0 <= k < idx() ==> decval(x, k) <= 922337203685477579
 //@     decreases len(x) - idx()
+
+// ---------------------------------------------------------------------------
+// Result: configuration index (C02, C01, C05)
+
+//@ pure func cfgUnique(r *Result) bool = forall i int, j int :: 0 <= i < j < len(r.Config) ==> r.Config[i].Key != r.Config[j].Key
+//@ pure func cfgIndexed(r *Result) bool = r.configPos != nil &&
+//@     (forall k string :: has(r.configPos, k) ==> 0 <= r.configPos[k] < len(r.Config) && r.Config[r.configPos[k]].Key == k) &&
+//@     (forall i int :: 0 <= i < len(r.Config) ==> has(r.configPos, r.Config[i].Key) && r.configPos[r.Config[i].Key] == i)
+//@ pure func cfgOK(r *Result) bool = r.configPos == nil ? cfgUnique(r) : cfgIndexed(r)
+//@ pure func sameButIndex(a Result, b Result) bool = a.Config === b.Config && a.Name === b.Name && a.Iters == b.Iters &&
+//@     a.Values === b.Values && a.fileName == b.fileName && a.line == b.line
+
+//@ func (r *Result) ConfigIndex(key string) (pos int, ok bool)
+//@   props C02 C05
+//@   requires r != nil && cfgOK(r)
+//@   modifies r
+//@   ensures cfgIndexed(r)
+//@   ensures sameButIndex(deref(r), old(deref(r)))
+//@   ensures old(r.configPos) != nil ==> r.configPos == old(r.configPos)
+//@   ensures old(r.configPos) == nil ==> fresh(r.configPos)
+//@   ensures ok <==> has(r.configPos, key)
+//@   ensures ok ==> pos == r.configPos[key]
+//@   ensures !ok ==> pos == 0
+//@   loop 1:
+//@     invariant 0 <= idx() <= len(r.Config) && unchanged(r)
+//@     invariant sameButIndex(deref(r), old(deref(r))) && old(r.configPos) == nil && fresh(r.configPos)
+//@     invariant forall k string :: has(r.configPos, k) ==> 0 <= r.configPos[k] < idx() && r.Config[r.configPos[k]].Key == k
+//@     invariant forall i int :: 0 <= i < idx() ==> has(r.configPos, r.Config[i].Key) && r.configPos[r.Config[i].Key] == i
+//@     decreases len(r.Config) - idx()
+
+//@ pure func cfgHasKey(r *Result, key string) bool = exists i int :: 0 <= i < len(r.Config) && r.Config[i].Key == key
+//@ pure func sameScalars(a Result, b Result) bool = a.Name === b.Name && a.Iters == b.Iters &&
+//@     a.Values === b.Values && a.fileName == b.fileName && a.line == b.line
+
+//@ func (r *Result) deleteConfig(key string)
+//@   props C02 C01
+//@   requires r != nil && cfgOK(r)
+//@   modifies r, r.Config, r.configPos
+//@   ensures cfgIndexed(r) && sameScalars(deref(r), old(deref(r)))
+//@   ensures ref(r.Config) == old(ref(r.Config)) && off(r.Config) == old(off(r.Config)) && cap(r.Config) == old(cap(r.Config))
+//@   ensures !old(cfgHasKey(r, key)) ==> len(r.Config) == old(len(r.Config))
+//@   ensures old(cfgHasKey(r, key)) ==> len(r.Config) == old(len(r.Config)) - 1
+//@   ensures forall i int :: 0 <= i < len(r.Config) ==> r.Config[i].Key != key
+//@   ensures forall i int :: 0 <= i < len(r.Config) ==>
+//@             (old(r.Config[i].Key) != key ==> r.Config[i] == old(r.Config[i])) &&
+//@             (old(r.Config[i].Key) == key ==> r.Config[i] == old(r.Config[len(r.Config)-1]))
+
+//@ func (r *Result) ensureConfig(key string, file bool) (cfg *Config)
+//@   props C02 C01
+//@   requires r != nil && cfgOK(r)
+//@   modifies r, r.Config, r.configPos
+//@   ensures cfgIndexed(r) && sameScalars(deref(r), old(deref(r)))
+//@   ensures cfg != nil && ref(cfg) == ref(r.Config) && off(r.Config) <= pidx(cfg) < off(r.Config)+len(r.Config)
+//@   ensures deref(cfg).Key == key && deref(cfg).File == file
+//@   ensures old(cfgHasKey(r, key)) ==> len(r.Config) == old(len(r.Config)) && r.Config === old(r.Config) &&
+//@             deref(cfg).Value === old(deref(cfg)).Value && old(deref(cfg)).Key == key
+//@   ensures !old(cfgHasKey(r, key)) ==> len(r.Config) == old(len(r.Config)) + 1 && pidx(cfg) == off(r.Config)+len(r.Config)-1
+//@   ensures !old(cfgHasKey(r, key)) && old(len(r.Config) < cap(r.Config)) ==> ref(r.Config) == old(ref(r.Config)) && off(r.Config) == old(off(r.Config))
+//@   ensures !old(cfgHasKey(r, key)) && old(len(r.Config) == cap(r.Config)) ==> fresh(r.Config) && deref(cfg).Value == nil
+//@   ensures forall i int :: 0 <= i < old(len(r.Config)) && off(r.Config)+i != pidx(cfg) ==> r.Config[i] == old(r.Config[i])
+
+//@ func (r *Result) GetConfig(key string) (v string)
+//@   props C02
+//@   requires r != nil && cfgOK(r)
+//@   modifies r
+//@   ensures cfgIndexed(r) && sameButIndex(deref(r), old(deref(r)))
+//@   ensures !cfgHasKey(r, key) ==> v == ""
+//@   ensures forall i int :: 0 <= i < len(r.Config) && r.Config[i].Key == key ==> v == string(r.Config[i].Value)
